@@ -465,6 +465,19 @@ impl<'a> Interp<'a> {
         if let Some(o) = r2.as_object_mut() {
             o.remove("msg");
             o.remove("ctx");
+            o.remove("was_pending"); // depends on real thread timing
+            if let Some(Value::Array(es)) = o.get_mut("entries") {
+                // listing order is HashSet / readdir order: not part of the observable result
+                es.sort_by_key(|e| e.to_string());
+            }
+            if let Some(Value::Array(es)) = o.get_mut("errs") {
+                for e in es.iter_mut() {
+                    if let Some(eo) = e.as_object_mut() {
+                        eo.remove("msg");
+                        eo.remove("ctx");
+                    }
+                }
+            }
         }
         let s = self.unsubst(&json!({"s": st, "r": r2}).to_string());
         self.out.log.push(serde_json::from_str(&s).unwrap_or(Value::Null));
